@@ -35,7 +35,7 @@ def describe(tier):
 
 
 def blocks(tier):
-    bl = K.pair_blocks(tier) + K.many_blocks(tier)
+    bl = K.pair_blocks(tier) + K.many_blocks(tier) + K.run_blocks(tier)
     return [(f, dict(p, tier=tier)) for f, p in bl]
 
 
@@ -70,6 +70,14 @@ def check_many(lst, acc, fam):
 
 def run_block(family, p, acc):
     tier = p["tier"]
+    if family == "runs":
+        probes = K.probe_sets(tier)
+        for A in K.run_sets(tier)[p["a0"]:p["a1"]]:
+            for B in probes:
+                check_pair(A, B, acc, "runs")
+                check_pair(B, A, acc, "runs")
+                acc.case(("runs", tuple(A), tuple(B)), nontrivial=True, outcome=("runs", K.overlapping(A, B)), sample=lambda: {"universe": "runs", "A": A, "B": B})
+        return
     if family == "pairs":
         uni = K.universes(tier)[p["u"]]
         n = 1 << len(uni)
